@@ -4,12 +4,19 @@
 #![feature(allocator_api)]
 #![allow(unused_imports, dead_code, unused_variables, unused_mut, clippy::all)]
 
+// the env stand-ins are compiled INTO this crate (not as a dependency) so that speedy's traits can
+// be implemented for the array-backed HashMap
+#[path = "../../../env/src/rangemap.rs"]
+pub mod rangemap;
+#[path = "../../../env/src/collections.rs"]
+pub mod collections;
+
 pub mod host {
     use bytes::{Buf, BufMut};
     use compact_str::CompactString;
     use smallvec::SmallVec;
     use speedy::{Context, Readable, Reader, Writable, Writer};
-    use std::collections::HashMap;
+    use crate::collections::HashMap;
     use std::hash::Hash;
     use std::ops::{Deref, RangeInclusive};
     use uhlc::NTP64;
@@ -29,6 +36,38 @@ pub mod host {
         }
     }
     use rusqlite::types::ValueRef;
+
+    /// length of the peer-supplied buffer of the running harness (set before decoding)
+    pub static mut INPUT_LEN: usize = 0;
+    /// slack allowed on top of the input length for a pre-allocation request (elements)
+    pub const PREALLOC_SLACK: usize = 4096;
+
+    // speedy wire format of HashMap<K,V> (u32 length, then key/value pairs) for the array-backed
+    // stand-in; mirrors speedy 0.8.7 `impl Readable/Writable for HashMap` (library code, trusted)
+    impl<'a, C: Context, K: Readable<'a, C> + Ord, V: Readable<'a, C>> Readable<'a, C> for HashMap<K, V> {
+        fn read_from<R: Reader<'a, C>>(reader: &mut R) -> Result<Self, C::Error> {
+            let length = reader.read_u32()? as usize;
+            let mut m = HashMap::new();
+            let mut i = 0;
+            while i < length {
+                let k = K::read_from(reader)?;
+                let v = V::read_from(reader)?;
+                m.insert(k, v);
+                i += 1;
+            }
+            Ok(m)
+        }
+    }
+    impl<C: Context, K: Writable<C>, V: Writable<C>> Writable<C> for HashMap<K, V> {
+        fn write_to<T: ?Sized + Writer<C>>(&self, writer: &mut T) -> Result<(), C::Error> {
+            (self.len() as u32).write_to(writer)?;
+            for (k, v) in self.iter() {
+                k.write_to(writer)?;
+                v.write_to(writer)?;
+            }
+            Ok(())
+        }
+    }
 
     include!("sliced/base.rs");
     include!("sliced/actor.rs");
